@@ -1,5 +1,5 @@
 import Driver.Util
-import LiquidVerif.Model.ExcFlow
+import LiquidVerif.Model.ExcChain
 open Lean LiquidVerif.C02 LiquidVerif.Gen.C02
 
 namespace Driver.C02
@@ -21,6 +21,12 @@ def verdictS (al : List String) (obs : String) : Json :=
 
 def verdict (m : Res Unit) (obs : String) : Json := verdictS (allowed m) obs
 
+/-- as `verdict`, plus whether the cell is one of the known-leak cells of `Model/C02Known.lean` -/
+def verdictK (m : Res Unit) (obs : String) (known : Bool) : Json :=
+  let al := allowed m
+  Json.mkObj [("allowed", jarr (al.map jstr)), ("verdict", if al.contains obs then jstr obs else jstr "NOT-ALLOWED"),
+              ("known", Json.bool known)]
+
 /-- the per-node handler of the render loop applied to every outcome (`strict = false`: warn / lax) -/
 def throughRenderLoop (strict : Bool) (m : Res Unit) : Res Unit :=
   List.flatMap (fun r => match r with | .ok _ => [.ok ()] | .error e => renderLoop strict e) m
@@ -35,7 +41,7 @@ def handleFilter (args : List Json) : Json :=
   | [f, l, as, obs] =>
     match (asStr? f).bind filterOfName?, (asStr? l).bind Cls.ofName?,
           (asArr? as).bind (mapM? (fun j => (asStr? j).bind Cls.ofName?)), asStr? obs with
-    | some f, some l, some as, some obs => verdict (runFilter f l as) obs
+    | some f, some l, some as, some obs => verdictK (runFilter f l as) obs (cellKnown f l as)
     | _, _, _, _ => jerr "bad-filter-args"
   | _ => jerr "bad-args"
 
@@ -44,7 +50,7 @@ def handleSite (args : List Json) : Json :=
   match args with
   | [s, x, st, obs] =>
     match (asStr? s).bind siteOfName?, (asStr? x).bind Cls.ofName?, asBool? st, asStr? obs with
-    | some s, some x, some st, some obs => verdict (runSiteMode st s x) obs
+    | some s, some x, some st, some obs => verdictK (runSiteMode st s x) obs (knownSiteLeak s x)
     | _, _, _, _ => jerr "bad-site-args"
   | _ => jerr "bad-args"
 
@@ -117,6 +123,23 @@ def handleHandler (args : List Json) : Json :=
     | _, _, _ => jerr "bad-handler-args"
   | _ => jerr "bad-args"
 
+def parseLink (j : Json) : Option Link :=
+  match asArr? j with
+  | some [f, as] => do
+    let f ← (asStr? f).bind filterOfName?
+    let as ← (asArr? as).bind (mapM? (fun j => (asStr? j).bind Cls.ofName?))
+    pure (f, as)
+  | _ => none
+
+/-- `["c02.chain", left, [[filter, [args…]], …], observed]` -/
+def handleChain (args : List Json) : Json :=
+  match args with
+  | [l, links, obs] =>
+    match (asStr? l).bind Cls.ofName?, (asArr? links).bind (mapM? parseLink), asStr? obs with
+    | some l, some links, some obs => verdictK (runChain links l) obs (!chainOk links l)
+    | _, _, _ => jerr "bad-chain-args"
+  | _ => jerr "bad-args"
+
 /-- `["c02.names"]` → the generated filter names, class names, site names, exception names -/
 def handleNames (_ : List Json) : Json :=
   Json.mkObj [("filters", jarr (FilterName.all.map (fun f => jarr [jstr f.name, jnat f.arity.1, jnat f.arity.2]))),
@@ -126,6 +149,6 @@ def handleNames (_ : List Json) : Json :=
 
 def commands : List (String × (List Lean.Json → Lean.Json)) :=
   [("c02.filter", handleFilter), ("c02.site", handleSite), ("c02.prim", handlePrim),
-   ("c02.handler", handleHandler), ("c02.names", handleNames)]
+   ("c02.handler", handleHandler), ("c02.chain", handleChain), ("c02.names", handleNames)]
 
 end Driver.C02
